@@ -239,6 +239,48 @@ def spec_calls(msgs):
     return out
 
 
+def async_part(ctx, rng, worst, thorough):
+    """an asynchronous backend (every subroutine completes only when the harness fires it): several messages of a connection are in flight at
+    once, arriving in one read or split over reads, completing in any order.  Every message must be handled exactly once, in arrival order,
+    and get exactly one completion reply carrying its own id, whatever the completion order."""
+    for _ in range(300 if thorough else 80):
+        k = rng.randrange(2, 6)
+        frames = [(i if rng.random() < 0.7 else 100 + 7 * i, ("HSub", bytes(rng.randrange(256) for _ in range(rng.choice([0, 1, 3, 8])))))
+                  for i in range(k)]
+        stream = b"".join(F.enc_frame(f) for f in frames)
+        L = len(stream)
+        cs = rng.choice([(), F.rand_cutset(rng, L), tuple(sorted(rng.sample(range(1, L), min(L - 1, rng.randrange(1, 3)))))])
+        chunks = F.cut(stream, [c for c in cs if 0 < c < L])
+        nd = F.ServerNode(slow=True)
+        c = nd.open()
+        fired = []
+        for ch in chunks:
+            nd.data(c, ch)
+            # some of the subroutines in flight complete between reads, in any order
+            while nd.pending and rng.random() < 0.4:
+                d = nd.pending.pop(rng.randrange(len(nd.pending)))
+                d.callback(None)
+                fired.append(1)
+        while nd.pending:
+            nd.pending.pop(rng.randrange(len(nd.pending))).callback(None)
+        ctx.count("async_backend_runs")
+        ctx.case(("async", stream.hex(), tuple(len(x) for x in chunks)), nontrivial=True)
+        handled = [(i, m) for (_, i, m) in nd.log]
+        dones = F.parse_done_ids(nd.writes, c)
+        want = [(f[0], f[1]) for f in frames]
+        d = {"part": "server-async", "sent": show_frames(frames), "chunks": hexl(chunks), "handled_ids": [i for i, _ in handled], "done_ids": dones}
+        if nd.crashes:
+            worst.add("server:unexpected-exception", (k, L, len(chunks)), "dataReceived raised %s with an asynchronous backend" % nd.crashes[0], d)
+        elif handled != want:
+            ctx.count("async_oracle_failures")
+            worst.add("server:async-messages-not-handled-once-in-order", (k, L, len(chunks)),
+                      "with %d subroutines in flight the backend was handed the messages with ids %r, the host sent %r" % (k, [i for i, _ in handled], [f[0] for f in frames]), d)
+        elif sorted(dones) != sorted(f[0] for f in frames):
+            ctx.count("async_oracle_failures")
+            worst.add("server:async-done-replies", (k, L, len(chunks)),
+                      "completion replies carry ids %r, the messages had ids %r" % (dones, [f[0] for f in frames]), d)
+
+
 def client_part(ctx, rng, cases, worst, thorough):
     streams = [[("RDone", 0)],
                [("RReg", 3, 1), ("RDone", 0), ("RArr", 5, [1, 2]), ("RDone", 1)],      # the Example of ReplyProofs.v
@@ -633,6 +675,7 @@ def run(ctx):
     node_part(ctx, rng, cases, worst, thorough)
     end_to_end_part(ctx, rng, cases, worst, thorough)
     client_part(ctx, rng, cases, worst, thorough)
+    async_part(ctx, rng, worst, thorough)
     socket_part(ctx, rng, cases, worst, thorough)
     codec_part(ctx, rng, cases, worst, thorough)
     for c in cases[:1] + cases[len(cases) // 2:len(cases) // 2 + 1] + cases[-1:]:
